@@ -682,6 +682,62 @@ def rule_r8(repo, run):
               "is searched under the placeholder and the user's code is never found", um.loc(up))
 
 
+def _line_normalisers(am):
+    """module functions of ast.py that turn the text values of a (nested) dictionary into lists of lines: they walk
+    `.items()` of their parameter, split text at newlines and replace None items"""
+    out = {}
+    for q, fn in am.functions().items():
+        if "." in q or not fn.args.args:
+            continue
+        p0 = fn.args.args[0].arg
+        walks = any(isinstance(c, ast.Call) and isinstance(c.func, ast.Attribute) and c.func.attr == "items"
+                    and pyflow.is_name(c.func.value, p0) for c in ast.walk(fn))
+        splits = any(isinstance(c, ast.Call) and isinstance(c.func, ast.Attribute) and c.func.attr == "split" and c.args
+                     and pyflow.const_str(c.args[0]) == "\n" for c in ast.walk(fn))
+        nones = any(isinstance(c, ast.Compare) and isinstance(c.ops[0], ast.Is) and isinstance(c.comparators[0], ast.Constant)
+                    and c.comparators[0].value is None for c in ast.walk(fn))
+        if walks and splits and nones:
+            out[q] = fn
+    return out
+
+
+def rule_r9(repo, run):
+    R = run.rule("C12.R9", "splicer text written in the YAML file reaches the splicer store only through a function that turns it "
+                           "into lines (text split at newlines, blank items replaced): the `splicer` group of a declaration and "
+                           "the top level `splicer_code` group alike")
+    am, mm = repo.module("ast"), repo.module("main")
+    norm = _line_normalisers(am)
+    if not norm:
+        raise AnalysisError("C12.R9: no function of ast.py turns splicer text into lines")
+    n = 0
+    # the driver: whatever of the input file is merged into `splicers`
+    mw = mm.func("main_with_args")
+    for c in ast.walk(mw):
+        if not (isinstance(c, ast.Call) and (pyflow.call_name(c) or "") in ("util.update", "splicers.update")):
+            continue
+        args = c.args[1:] if (pyflow.call_name(c) or "") == "util.update" else c.args
+        if (pyflow.call_name(c) or "") == "util.update" and not (c.args and pyflow.is_name(c.args[0], "splicers")):
+            continue
+        for a in args:
+            if "allinput" not in str(mm.seg(a)):
+                continue
+            n += 1
+            ok = isinstance(a, ast.Call) and (pyflow.call_name(a) or "").split(".")[-1] in norm
+            run.check(R, "main.main_with_args:splicers<-%s" % re.sub(r"\s+", "", str(mm.seg(a)))[:40], ok,
+                      "the group is merged into the splicer store as the YAML loader returned it: a block string is later "
+                      "written one character per line and a blank list item (None) ends in AttributeError in write_lines",
+                      mm.loc(c))
+    # a declaration: the value handed to the node is the normalised one
+    ad = am.func("add_declarations")
+    for a in ast.walk(ad):
+        if isinstance(a, ast.Assign) and isinstance(a.targets[0], ast.Subscript) and pyflow.const_str(a.targets[0].slice) == "splicer":
+            n += 1
+            ok = isinstance(a.value, ast.Call) and (pyflow.call_name(a.value) or "").split(".")[-1] in norm
+            run.check(R, "ast.add_declarations:dct[splicer]", ok,
+                      "the splicer group of a declaration is stored without being turned into lines", am.loc(a))
+    run.floor(R, "entry points of splicer text", n, 2)
+
+
 def run(repo, run, tier):
     rule_r1(repo, run)
     rule_r2(repo, run)
@@ -691,3 +747,4 @@ def run(repo, run, tier):
     rule_r6(repo, run)
     rule_r7(repo, run)
     rule_r8(repo, run)
+    rule_r9(repo, run)
